@@ -213,6 +213,10 @@ func (ex *Exec) instr(st *State, fr *Frame, instr ssa.Instruction) {
 			name = f.Fn.String()
 		}
 		ex.spawns = append(ex.spawns, name)
+		if fnv != nil {
+			_, gargs := ex.prepareCall(st, fr, &in.Call)
+			ex.spawned = append(ex.spawned, spawnRec{fnv, gargs})
+		}
 	case *ssa.Send:
 		ex.chanSend(st, fr, in, ex.get(fr, in.Chan), ex.get(fr, in.X))
 	case *ssa.Select:
